@@ -127,6 +127,23 @@ impl PositionInsertionEvaluator {
     }
 }
 
+/// Read-only access for verification tooling (guarded, never compiled in normal builds): lets the native replay binary
+/// under /verif call the crate-private collection flavour of the evaluator.
+#[cfg(reinterpretcat_vrp_verif)]
+impl PositionInsertionEvaluator {
+    /// See `evaluate_and_collect_all`.
+    pub fn verif_evaluate_and_collect_all(
+        &self,
+        insertion_ctx: &InsertionContext,
+        jobs: &[&Job],
+        routes: &[&RouteContext],
+        leg_selection: &LegSelection,
+        result_selector: &(dyn ResultSelector),
+    ) -> Vec<InsertionResult> {
+        self.evaluate_and_collect_all(insertion_ctx, jobs, routes, leg_selection, result_selector)
+    }
+}
+
 impl InsertionEvaluator for PositionInsertionEvaluator {
     fn evaluate_all(
         &self,
